@@ -11,6 +11,7 @@ type Err struct {
 	Cond  string
 	Data  []*V
 	Panic bool // produced by recovering a panic in host code
+	User  bool // raised by the error builtin (Data is meaningful)
 	ID    int  // identity of the error object (rethrow must preserve it)
 	Node  int  // AST position of the form whose evaluation raised it (-1 unknown)
 	Chain []Frame
@@ -61,6 +62,7 @@ type Interp struct {
 	MaxSteps int
 	chain    []Frame
 	condStk  []*Err
+	CondIDs  []int // error identities seen by (host-cond ...), 0 = none pending
 	curNode  int
 	// Unsupported is set when the program used a construct the reference does
 	// not model exactly; the comparison is then skipped (counted).
@@ -93,8 +95,14 @@ func (in *Interp) usePackage(p *Package) {
 	}
 }
 
+// BuiltinMsg stands for the message text of an error raised by the
+// interpreter itself: every such error carries exactly one datum (its message),
+// whose wording the reference does not model.  A check must not compare values
+// in which the marker is visible.
+const BuiltinMsg = "\x00builtin-error-message\x00"
+
 func (in *Interp) errf(format string, a ...any) *Err {
-	return in.cond("error", nil, fmt.Sprintf(format, a...))
+	return in.cond("error", []*V{Str(BuiltinMsg)}, fmt.Sprintf(format, a...))
 }
 
 func (in *Interp) cond(name string, data []*V, msg string) *Err {
